@@ -214,6 +214,19 @@ func TestVfC15Listeners(t *testing.T) {
 				}
 				a.Header = map[string]string{"X-Client": addr}
 				res := a.Ask("http", Query(uint16(1000+i), mkName("flood", i), 1, 1, false), 2*time.Second, 0)
+				if i%20 == 19 {
+					// a second client behind the same HTTP peer, identified by the header, in another subnet and
+					// well within its own budget: it must never be refused because of the flooding client
+					other := fmt.Sprintf("203.0.%d.%d", n%250, 1+i%250)
+					if kind == "http-v6" {
+						other = fmt.Sprintf("2001:db9:%x::%x", n%65000, i+1)
+					}
+					a.Header = map[string]string{"X-Client": other}
+					r2 := a.Ask("http", Query(uint16(3000+i), mkName("quiet", i), 1, 1, false), 2*time.Second, 0)
+					if r2.Status == 503 {
+						slowRefused.Add(1)
+					}
+				}
 				switch {
 				case res.Status == 503:
 					refused++
@@ -237,7 +250,7 @@ func TestVfC15Listeners(t *testing.T) {
 		wg.Wait()
 		desc := fmt.Sprintf("flood=%s from %s0/24: admitted=%d refused=%d other=%d in %.3fs", kind, subA, admitted, refused, other, window)
 		if slowRefused.Load() > 0 {
-			t.Fatalf("the slow client of subnet %s0/24 (3 queries, cost 12 <= burst %d) was refused %d times while another subnet flooded; %s", subB, burst, slowRefused.Load(), desc)
+			t.Fatalf("a client within its own budget (the slow UDP client of %s0/24, or the quiet header-identified HTTP client of another subnet) was refused %d times while another subnet flooded (burst %d); %s", subB, slowRefused.Load(), burst, desc)
 		}
 		if byRefused.Load() > 0 {
 			t.Fatalf("a client in the listener's own /24 (%s201) was refused although only subnet %s0/24 sent traffic: connection costs are not charged to the client's subnet; %s", block, subA, desc)
